@@ -28,7 +28,72 @@ REQUIRED = [
     "DaeVerif.C05.Props.timed_agrees_with_engine",
     "DaeVerif.C05.Props.deadline_cleared_on_every_path",
     "DaeVerif.C05.Props.deadline_table_covers_probes",
+    "DaeVerif.C05.Props.gather_write_no_loss_no_dup",
+    "DaeVerif.C05.Props.gather_segment_helpers_exact",
+    "DaeVerif.C05.Props.splice_loop_conserves",
+    "DaeVerif.C05.Props.splice_pipe_pooled_only_when_empty",
+    "DaeVerif.C05.Props.copy_to_failing_destination",
+    "DaeVerif.C05.Props.failing_destination_gets_exact_prefix",
+    "DaeVerif.C05.Props.fault_free_is_conn",
+    "DaeVerif.C05.Props.received_is_prefix_under_faults",
+    "DaeVerif.C05.Props.external_cancel_cuts_only_at_cancel",
+    "DaeVerif.C05.Props.dial_failure_forwards_nothing",
+    "DaeVerif.C05.Props.halfclose_without_closewrite",
 ]
+
+SPLICE_STUB = '''// STUB: translators/c05splice could not regenerate relaySpliceCopyExact from the source under check
+// (%s) — the c05sp stream is unavailable.
+package control
+
+import (
+	"context"
+	"net"
+)
+
+const c05SpliceGenAvailable = false
+
+func c05GenSpliceCopyExact(ctx context.Context, dst, src *net.TCPConn, record func(int64)) (int64, error) {
+	panic("c05: generated splice loop unavailable")
+}
+'''
+
+
+def splice_overlay(ctx, stub_reason=None):
+    """relaySpliceCopyExact regenerated from /repo's current control/ sources with the two splice helpers
+    replaced by harness hooks (translators/c05splice); a stub when the translator fails closed."""
+    from verifkit import sh, go_env, REPO
+    gen = os.path.join(ctx.out, "gen")
+    os.makedirs(gen, exist_ok=True)
+    outp = os.path.join(gen, "c05gen_splice.go")
+    if os.path.exists(outp):
+        os.unlink(outp)
+    mode = "regenerated from the source under check"
+    if stub_reason is None:
+        # the translator binary is cached by the hash of its source (go run would relink it on every run)
+        import hashlib
+        from verifkit import CACHE
+        tdir = os.path.join(VERIF, "translators", "c05splice")
+        h = hashlib.sha256(open(os.path.join(tdir, "main.go"), "rb").read()).hexdigest()[:16]
+        tbin = os.path.join(CACHE, "bin", "c05splice-" + h)
+        if not os.path.exists(tbin):
+            os.makedirs(os.path.dirname(tbin), exist_ok=True)
+            tmpb = tbin + ".tmp%d" % os.getpid()
+            rc, out, dt = sh(["go", "build", "-o", tmpb, "main.go"], cwd=tdir, env=go_env(), timeout=600)
+            ctx.log.write(f"$ go build c05splice [{dt:.1f}s rc={rc}] {out}\n")
+            if rc == 0 and os.path.exists(tmpb):
+                os.replace(tmpb, tbin)
+        if os.path.exists(tbin):
+            rc, out, dt = sh([tbin, os.path.join(REPO, "control"), outp], cwd=tdir, env=go_env(), timeout=600)
+        else:
+            rc, out, dt = sh(["go", "run", "main.go", os.path.join(REPO, "control"), outp], cwd=tdir, env=go_env(), timeout=600)
+        ctx.log.write(f"$ c05splice [{dt:.1f}s rc={rc}] {out}\n")
+        if rc != 0 or not os.path.exists(outp):
+            stub_reason = out.strip().replace("\n", " ")[-300:] or "translator failed"
+    if stub_reason is not None:
+        open(outp, "w").write(SPLICE_STUB % stub_reason.replace("%", "%%"))
+        mode = "UNAVAILABLE: " + stub_reason
+    return {os.path.join(REPO, "control", "zz_verif_c05gen_splice.go"): outp}, mode
+
 
 GEN = os.path.join(LEAN, "DaeVerif", "C05", "Gen", "DeadlinePaths.lean")
 
@@ -53,9 +118,18 @@ def run(ctx):
         "(real-socket streams compare bytes, the timed streams run over in-memory conns)",
     ]
     # 1. harness binary first: the deadline-path table is regenerated from the repository under check
-    binp = ctx.go_test_build("control", ["control/c05_test.go", "control/c05_paths_test.go", "control/c05_tcp_test.go", "control/c05_wrap_test.go", "control/c05_e2e_test.go"], "c05")
+    harness_files = ["control/c05_test.go", "control/c05_paths_test.go", "control/c05_tcp_test.go", "control/c05_wrap_test.go",
+                     "control/c05_e2e_test.go", "control/c05_fault_test.go"]
+    sp_overlay, sp_mode = splice_overlay(ctx)
+    binp = ctx.go_test_build("control", harness_files, "c05", extra_overlay=sp_overlay)
+    if not binp and not sp_mode.startswith("UNAVAILABLE"):
+        # the regenerated loop does not compile against the harness hooks: the anchor moved in a way the translator
+        # did not notice — every other stream still runs; the missing one turns the verdict into NO-EVIDENCE (exit 2)
+        sp_overlay, sp_mode = splice_overlay(ctx, stub_reason="the regenerated function did not compile in the harness")
+        binp = ctx.go_test_build("control", harness_files, "c05", extra_overlay=sp_overlay)
     if not binp:
         return 2
+    ctx.cov["splice_loop_source"] = sp_mode
     rc, out = ctx.run_harness(binp, "TestVerifC05Paths")
     gen_new = os.path.join(ctx.out, "c05_paths.lean")
     if rc != 0 or not os.path.exists(gen_new):
@@ -95,7 +169,7 @@ def run(ctx):
     samples = []
     dist = {}
     for test, stream in (("TestVerifC05Conn", "c05conn"), ("TestVerifC05Concurrent", "c05par"), ("TestVerifC05E2E", "c05e2e"), ("TestVerifC05Tcp", "c05tcp"),
-                         ("TestVerifC05Wrap", "c05wrap")):
+                         ("TestVerifC05Wrap", "c05wrap"), ("TestVerifC05Wv", "c05wv"), ("TestVerifC05Splice", "c05sp")):
         rc, out = ctx.run_harness(binp, test)
         ops, impl, model = (os.path.join(ctx.out, stream + "." + e) for e in ("ops", "impl", "model"))
         if rc != 0 or not os.path.exists(ops):
@@ -163,7 +237,10 @@ def run(ctx):
                 if n_crash <= 2:   # a few witnesses are enough; keep room for the other reports
                     ctx.report("the real connection handler panicked on these client bytes (production has no recover "
                                "there: the daemon would die): " + im[:300], {"stream": stream, "op": op, "impl": im})
-            if "LOSS-OR-DUP" in im or "NOT-A-PREFIX" in im:
+            if "LOSS-OR-DUP(" in im:
+                ctx.report("bytes were lost, duplicated or reordered at a kernel hand-over (scripted syscall results): " +
+                           im[im.index("LOSS-OR-DUP("):][:300], {"stream": stream, "op": op[:2000], "impl": im[:600]})
+            elif "LOSS-OR-DUP" in im or "NOT-A-PREFIX" in im:
                 ctx.report("a wrapper lost, duplicated or reordered bytes: the concatenation of everything it handed out "
                            "(Read / TakeRelaySegments / CopyRelayRemainder / WriteTo, in this order: " + op.split()[-1] +
                            ") is not the bytes fed in — " + im[-200:],
@@ -196,8 +273,36 @@ def run(ctx):
         "a connection whose upstream ended before the OBSERVED dial is discarded after the run (the two directions would race in "
         "one virtual instant; about 8 % of the generated connections, counted as discard.upstream-ended-before-dial)",
     ]
-    return ctx.finish(
-        rule="six streams — c05conn: one op = one whole proxied connection through the real handleConn (client script, upstream script, port, "
+    # generator floors (quick-tier sizes): an input class the check relies on must really have been produced
+    floors = {
+        "c05conn": {"fault.write-to-upstream-fails": 70, "fault.write-to-client-fails": 40, "fault.context-cancelled": 80,
+                    "fault.dial-fails": 20, "fault.client-conn-without-closewrite": 90, "directed": 19},
+        "c05par": {"fault.write-to-upstream-fails": 10, "fault.write-to-client-fails": 10, "fault.context-cancelled": 12},
+        "c05tcp": {"copy.dst-fails.opaque": 6, "copy.dst-fails.tcp-writev": 15},
+        "c05wv": {"wv.step.partial": 800, "wv.step.i": 250, "wv.step.a": 250, "wv.step.A": 80, "wv.step.x": 120,
+                  "wv.end.ok": 700, "wv.end.short": 150, "wv.end.wait": 80, "wv.end.err": 120,
+                  "wv.more-segments-than-inline-scratch": 200, "adv.case": 400},
+        "c05sp": {"sp.out.partial": 250, "sp.end.ok": 400, "sp.end.err": 200, "sp.end.short": 60,
+                  "sp.ended-with-bytes-in-the-pipe": 160, "sp.step.cancelled-during-call": 60, "sp.in.e": 400},
+    }
+    low = {f"{st}:{k}": (dist.get(st, {}).get(k, 0), v) for st, fl in floors.items() for k, v in fl.items()
+           if dist.get(st, {}).get(k, 0) < v}
+    ctx.cov["generator_floors"] = floors
+    unavailable = sp_mode.startswith("UNAVAILABLE")
+    if unavailable:
+        low = {k: v for k, v in low.items() if not k.startswith("c05sp:")}
+    rc = ctx.finish(
+        rule="eight streams — c05conn: one op = one whole proxied connection through the real handleConn (client script, upstream script, port, "
              "sniffing window, peer CloseWrite support); c05tcp: one op = one directional copy of defaultRelayCopyEngine over real "
-             "loopback TCP sockets or white-box wrapper states; distinct_nontrivial = distinct op lines",
+             "loopback TCP sockets or white-box wrapper states (optionally towards a destination failing after cap bytes); "
+             "c05wv / c05sp: one op = one run of relayWritevAll / the regenerated relaySpliceCopyExact under a scripted schedule of "
+             "syscall results; distinct_nontrivial = distinct op lines",
         evaluations=evaluations, distinct=len(distinct))
+    if rc == 0 and unavailable:
+        ctx.say("NO-EVIDENCE for the splice loop: " + sp_mode + " — relaySpliceCopyExact changed shape; adapt translators/c05splice "
+                "(the other streams passed)")
+        return 2
+    if rc == 0 and low:
+        ctx.say("GENERATOR-FLOOR not reached (have, floor):", low)
+        return 2
+    return rc
